@@ -285,6 +285,80 @@ def h_reuse(ctx, has_channel):
     ctx.observe("log", [bytes(m) for m in log])
 
 
+class _Yield:
+    """Awaitable that suspends its task once (a transport send that really waits)."""
+
+    def __await__(self):
+        yield "suspended"
+
+
+def h_interleave(ctx, n):
+    """n messages handed to _send on one ordered stream while the transport's send suspends: the
+    tasks interleave in a solver-chosen schedule.  Stream sequence numbers must still be distinct
+    and follow TSN order, whatever the schedule."""
+    with Env(crc=(lambda d: 0) if sx.active() else None) as env:
+        t = env.transport("controlling", established=True, local_tsn=ctx.int("tsn_origin", 0, U32), remote_tsn=77)
+        ssn0 = ctx.int("ssn_origin", 0, U16)
+        t._outbound_stream_seq[1] = ssn0
+
+        async def send_data(data):
+            await _Yield()
+            t.transport.sent.append(data)
+
+        t.transport._send_data = send_data
+        tasks = [t._send(1, sctp.WEBRTC_BINARY, bytes([0x41 + i])) for i in range(n)]
+        live = list(range(n))
+        started = []
+        steps = 0
+        while live:
+            steps += 1
+            if steps > 8 * n:
+                ctx.fail("tasks-do-not-terminate")
+                break
+            i = live[0] if len(live) == 1 else ctx.choice("run%d" % steps, live)
+            if i not in started:
+                started.append(i)
+            try:
+                tasks[i].send(None)
+            except StopIteration:
+                live.remove(i)
+        ctx.reach("interleaved")
+        chunks = list(t._sent_queue) + list(t._outbound_queue)
+        ctx.check(len(chunks) == n, "one-chunk-per-message")
+        # in TSN order (= queue order) the stream sequence numbers are ssn0, ssn0+1, ...
+        for k, c in enumerate(chunks):
+            ctx.check(sx.eq(c.stream_seq, (ssn0 + k) & U16), "stream-sequence-numbers-follow-tsn-order-under-any-schedule", "chunk %d" % k)
+        ctx.check(sx.eq(t._outbound_stream_seq[1], (ssn0 + n) & U16), "next-stream-sequence-number")
+    ctx.observe("n", n)
+
+
+def h_early_message(ctx, state, ordered):
+    """A user message that SCTP delivers while the local channel object is not 'open' yet (the
+    peer's DCEP ACK is still on its way, or overtaken) or is already 'closing' is still handed to
+    the application, exactly once."""
+    from aiortc.rtcdatachannel import RTCDataChannel, RTCDataChannelParameters
+
+    with Env(crc=(lambda d: 0) if sx.active() else None) as env:
+        t = env.transport("controlling", established=True, local_tsn=5, remote_tsn=200)
+        if state == "connecting":
+            ch = RTCDataChannel(t, RTCDataChannelParameters(label="l", id=1, ordered=ordered))  # OPEN sent, no ACK yet
+            env.drain()
+        else:
+            ch = env.channel(t, id=1)
+            if state == "closing":
+                ch.close()
+        ctx.check(ch.readyState == state, "pre-state")
+        log = []
+        ch.on("message", log.append)
+        c = DataChunk(flags=3 | (0 if ordered else sctp.SCTP_DATA_UNORDERED))
+        c.tsn, c.stream_id, c.stream_seq, c.protocol, c.user_data = 200, 1, 0, ctx.choice("ppid", [sctp.WEBRTC_BINARY, sctp.WEBRTC_STRING]), sx.mkbytes([ctx.int("payload", 0, 127)])  # (ASCII: valid as a string message too)
+        sx.run(t._receive_data_chunk(c))
+        env.drain()
+        ctx.reach("early-message-handled")
+        ctx.check(len(log) == 1, "message-delivered-exactly-once-whatever-the-channel-state", "%s: %d" % (state, len(log)))
+    ctx.observe("n", len(log))
+
+
 def _mixed_jobs(tier):
     from .c06_partial import _bmc_jobs
 
@@ -311,6 +385,8 @@ def _fwd_acked(ctx, **params):
 
 
 HARNESSES = {
+    "early-message": Harness("early-message", h_early_message, lambda tier: [{"state": st, "ordered": o} for st in ("connecting", "open", "closing") for o in (True, False)], style="STEP", bounds="one complete user message (binary or string, symbolic byte) arriving on the stream of a channel that is connecting / open / closing, ordered or unordered", encoded=["aiortc.rtcsctptransport:RTCSctpTransport._receive_data_chunk", "aiortc.rtcsctptransport:RTCSctpTransport._data_channel_receive"], twin="early-message-handled", opts={"samples": 1}),
+    "interleave": Harness("interleave", h_interleave, lambda tier: [{"n": n} for n in ((2,) if tier == "quick" else (2, 3))], style="BMC over schedules", bounds="2 (quick) / 3 concurrent _send tasks on one ordered stream, every interleaving at the suspension point of the transport send; TSN and SSN origins symbolic", encoded=["aiortc.rtcsctptransport:RTCSctpTransport._send", "aiortc.rtcsctptransport:RTCSctpTransport._transmit"], stubs=["DTLS transport _send_data -> suspends once, then records the datagram"], twin="interleaved", opts={"samples": 1}),
     "forward-tsn-bookkeeping": Harness("forward-tsn-bookkeeping", _fwd_acked, lambda tier: [{"q": q} for q in ((0, 1) if tier == "quick" else (0, 1, 2))], style="STEP", bounds="sender with an outstanding FORWARD-TSN (1..3 abandoned chunks, one stream entry) and 0..1 (2) further chunks; one SACK: an acknowledged FORWARD-TSN leaves no (stream, sequence) entries that a later one could replay onto a stream id since re-used by a reliable channel", encoded=["aiortc.rtcsctptransport:RTCSctpTransport._update_advanced_peer_ack_point", "aiortc.rtcsctptransport:RTCSctpTransport._receive_sack_chunk"], twin="sack-over-forward-tsn-processed", opts={"samples": 1}),
     "flush-params": Harness("flush-params", _flush, lambda tier: [{"n": n} for n in ((2,) if tier == "quick" else (2, 3))], style="BMC over configurations", bounds="a reliable channel's message flushed in one call with messages of partially reliable / unordered channels (solver-chosen kinds and order): it is handed to _send without lifetime, retransmission limit, and ordered", encoded=["aiortc.rtcsctptransport:RTCSctpTransport._data_channel_flush"], stubs=["RTCSctpTransport._send -> recorder"], twin="flushed", opts={"samples": 1}),
     "reuse": Harness("reuse", h_reuse, lambda tier: [{"has_channel": h} for h in (True, False)], style="STEP", bounds="one stream id, previous incarnation at a symbolic stream sequence number, incoming stream reset with / without a local channel object, then two messages of the next incarnation in swapped order; TSN origin symbolic", encoded=["aiortc.rtcsctptransport:RTCSctpTransport._receive_reconfig_param", "aiortc.rtcsctptransport:InboundStream.pop_messages"], twin="stream-reset-handled", opts={"samples": 1}),
